@@ -8,7 +8,24 @@ import time
 ROOT = os.path.dirname(os.path.dirname(os.path.abspath(__file__)))
 REPO = os.environ.get("VERIF_REPO", "/repo")
 ENV = dict(os.environ, CARGO_NET_OFFLINE="true")
-RAC = os.path.join(ROOT, "rac")
+WORK = os.environ.get("VERIF_WORK", ROOT)   # a private work area (seed matrix runs): sources are copied there
+
+
+def _crate(name):
+    src = os.path.join(ROOT, name)
+    if WORK == ROOT:
+        return src
+    import shutil
+    dst = os.path.join(WORK, name)
+    os.makedirs(os.path.join(dst, "src"), exist_ok=True)
+    for f in os.listdir(os.path.join(src, "src")):
+        a, b = os.path.join(src, "src", f), os.path.join(dst, "src", f)
+        if not os.path.exists(b) or open(a).read() != open(b).read():
+            shutil.copy(a, b)
+    return dst
+
+
+RAC = _crate("rac")
 
 
 CARGO_TOML = """[package]
@@ -43,7 +60,7 @@ def build():
     return p
 
 
-RAC2 = os.path.join(ROOT, "rac2")
+RAC2 = _crate("rac2")
 CARGO2_TOML = """[package]
 name = "rac2"
 version = "0.1.0"
@@ -61,7 +78,7 @@ debug = 0
 """
 
 
-RAC3 = os.path.join(ROOT, "rac3")
+RAC3 = _crate("rac3")
 CARGO3_TOML = CARGO2_TOML.replace('name = "rac2"', 'name = "rac3"').replace('futures = "0.3.0"', 'fut = { package = "futures", version = "0.3.0" }')
 
 
